@@ -12,7 +12,7 @@ RULE = ('case = (solver, termination tree, program over Step/Solve/SetEvaluation
 ASSUMPTIONS = ['"Solve always returns" is restated as bounded progress: the number of Steps inside Solve is bounded by the limits in force (+ slack); a watchdog firing is inconclusive',
                'limits are compared with the real iteration and cost-call counts kept by the harness',
                'wall-clock time plays no role (TimeLimits is not used)']
-CLASSES = {'programs': {'quick': 1440, 'thorough': 18000}, 'default_limits': {'quick': 240, 'thorough': 3000}, 'wrappers': {'quick': 600, 'thorough': 9000}}
+CLASSES = {'programs': {'quick': 2880, 'thorough': 18000}, 'default_limits': {'quick': 480, 'thorough': 3000}, 'wrappers': {'quick': 1200, 'thorough': 9000}}
 MIN_EVENTS = {'quick': {'assert:c05': 3000, 'stop_condition_held_at_entry': 300, 'iterations': 1500}}
 CASE_TIMEOUT = 120
 
